@@ -67,3 +67,122 @@ func VH_C09_arcsplit_Q() {
 		vAssert("C09.arcsplit.large_iff_more_than_half_turn", large == (spans[k] > half))
 	}
 }
+
+// C09-H3b: the same arcs when the inverse arc-length map is only approximate, as the real
+// Chebyshev approximation is: the stub returns the exact angle plus an arbitrary error of up to
+// 0.02 rad per call (clamped to the arc's range as polynomialChebyshevApprox does), so that two
+// cuts closer than the error may come out in the wrong order.  SplitAt must not panic, must return
+// one piece per cut plus one, consecutive pieces must share their end points, the first piece
+// starts at the arc's start and the last ends at its end, and the sweep flag is kept.  The stub's
+// draws exist only under the engine: interpreter-only observation.
+func vhC09InvSpeedInexact(N int, gl gaussLegendreFunc, fp func(float64) float64, tmin, tmax float64) (func(float64) float64, float64) {
+	r := fp(tmin)
+	dT := math.Abs(tmax-tmin) * r
+	lo, hi := math.Min(tmin, tmax), math.Max(tmin, tmax)
+	return func(l float64) float64 {
+		e := vNondetF64()
+		vAssume(-0.02 <= e && e <= 0.02)
+		return math.Min(hi, math.Max(lo, tmin+(tmax-tmin)*l/dT+e))
+	}, dT
+}
+
+func vhC09ArcToNonzero(p *Path, rx, ry, rot float64, large, sweep bool, x, y float64) {
+	if pos := p.Pos(); pos.X == x && pos.Y == y {
+		return
+	}
+	vhC09RawArcTo(p, rx, ry, rot, large, sweep, x, y)
+}
+
+func VH_C09_arcsplit_inexact_Q() {
+	if !vInterp() {
+		return
+	}
+	vStub("!github.com/tdewolff/canvas.invSpeedPolynomialChebyshevApprox", vhC09InvSpeedInexact)
+	vStub("!math.Mod", vhC09Mod2Pi)
+	vStub("!(*github.com/tdewolff/canvas.Path).ArcTo", vhC09ArcToNonzero)
+	deg := []float64{300, 120}[vChoose(0, 1)]
+	sweep := vChoose(0, 1) == 1
+	ang := deg * math.Pi / 180
+	if !sweep {
+		ang = -ang
+	}
+	end := Point{10 * math.Cos(ang), 10 * math.Sin(ang)}
+	p := &Path{}
+	p.d = []float64{MoveToCmd, 10, 0, MoveToCmd, ArcToCmd, 10, 10, 0, fromArcFlags(deg > 180, sweep), end.X, end.Y, ArcToCmd}
+	L := 10 * deg * math.Pi / 180
+	t1, t2 := vNondetF64(), vNondetF64()
+	vAssumeI(1 <= t1 && t1+0.01 <= t2 && t2 <= L-1)
+	var qs []*Path
+	panicked := false
+	func() {
+		defer func() {
+			if recover() != nil {
+				panicked = true
+			}
+		}()
+		qs = p.SplitAt(t1, t2)
+	}()
+	vAssertI("C09.arcsplit_inexact.no_panic", !panicked)
+	if panicked {
+		return
+	}
+	vAssertI("C09.arcsplit_inexact.count", len(qs) == 3)
+	if len(qs) != 3 {
+		return
+	}
+	ok := true
+	prev := Point{10, 0}
+	for _, q := range qs {
+		subs, dec := vhDecode(q.d)
+		ok = ok && dec && len(subs) == 1 && len(subs[0].segs) <= 1
+		if !ok {
+			break
+		}
+		ok = ok && subs[0].start.X == prev.X && subs[0].start.Y == prev.Y
+		prev = subs[0].start
+		if len(subs[0].segs) == 1 {
+			sg := subs[0].segs[0]
+			_, sw := toArcFlags(sg.a[3])
+			ok = ok && sg.cmd == ArcToCmd && sw == sweep
+			prev = sg.end
+		}
+	}
+	vAssertI("C09.arcsplit_inexact.consecutive_pieces_with_the_arcs_direction", ok)
+	vAssertI("C09.arcsplit_inexact.ends_at_the_arc_end", prev.X == end.X && prev.Y == end.Y)
+}
+
+// C09 (ellipseLength, the length of every arc segment): the length of an arc that crosses the
+// ellipse's axes equals the sum of the lengths of its parts between the axes.  True arc length is
+// additive; a quadrature applied to the whole range is not (5 nodes over most of a 2:1 ellipse are
+// 2 % short, 9 % for 6:1 - defect D76), and the pieces SplitAt returns are measured one by one, so
+// "the lengths of the pieces sum to Length()" depends on it.  Symbolic start and end parameter in
+// two different quarters (1 to 3 axes between them, at least 0.5 rad on either side), both
+// directions; the quadrature rule is an uninterpreted function of its range in the symbolic run: the
+// verdict is about which ranges it is applied to.
+func vhC09Quadrature(f func(float64) float64, a, b float64) float64 { return vUninterp2(a, b) }
+
+func VH_C09_arc_length_additive_Q() {
+	// the quadrature rule is abstracted to an uninterpreted function of its range: the verdict
+	// is about the ranges ellipseLength applies it to (natively the real rule runs)
+	vStub("github.com/tdewolff/canvas.gaussLegendre5", vhC09Quadrature)
+	rr := [][2]float64{{6, 1}, {2, 1}, {3, 2.5}}[vChoose(0, 2)]
+	rx, ry := rr[0], rr[1]
+	h := math.Pi / 2
+	k1 := vChoose(0, 3)
+	n := vChoose(1, 3)
+	t1, t2 := vNondetF64(), vNondetF64()
+	vAssume(float64(k1)*h+0.01 <= t1 && t1 <= float64(k1+1)*h-0.5)
+	vAssume(float64(k1+n)*h+0.5 <= t2 && t2 <= float64(k1+n+1)*h-0.01)
+	var whole float64
+	if vChoose(0, 1) == 0 {
+		whole = ellipseLength(rx, ry, t1, t2)
+	} else {
+		whole = ellipseLength(rx, ry, t2, t1)
+	}
+	sum := ellipseLength(rx, ry, t1, float64(k1+1)*h)
+	for i := 1; i < n; i++ {
+		sum += ellipseLength(rx, ry, float64(k1+i)*h, float64(k1+i+1)*h)
+	}
+	sum += ellipseLength(rx, ry, float64(k1+n)*h, t2)
+	vAssert("C09.arclength.additive_over_the_quarters", math.Abs(whole-sum) <= 1e-6*rx)
+}
